@@ -243,3 +243,388 @@ Proof.
   - eapply (setter_SInv b pend s n _ _ [Tfont f] [Tfont f]); eauto; try reflexivity.
     unfold Coh, set_font; simpl. repeat split; auto; intros f0 Hf; congruence.
 Qed.
+
+(* ------------------------------------------------------------------------- structural calls, one by one *)
+Lemma Coh_g s g g' :
+  g_fill g' = g_fill g -> g_stroke g' = g_stroke g -> g_ca g' = g_ca g -> g_CA g' = g_CA g -> g_font g' = g_font g ->
+  Coh s g -> Coh s g'.
+Proof. unfold Coh. intros -> -> -> -> ->. auto. Qed.
+
+Lemma okb_in_text_tail x r : okb (x :: r) = true -> in_text r = false.
+Proof. simpl. apply no_bt_in_text. Qed.
+
+Lemma tok_SInv b s n k : SInv b false s n -> SInv b false (emit (Tother k) s) (nemit (Tother k) n).
+Proof.
+  intros []. constructor; simpl; auto.
+  - rewrite si_g0, si_obs0, si_text0, si_ntext0, (si_tm0 eq_refl). reflexivity.
+  - discriminate.
+Qed.
+
+Lemma tm_SInv b pend s n m :
+  in_text b = true -> SInv b pend s n -> SInv b false (emit (Ttm m) s) (nemit (Ttm m) n).
+Proof.
+  intros T []. rewrite T in *.
+  constructor; simpl; rewrite ?si_text0, ?si_ntext0; simpl; auto. discriminate.
+Qed.
+
+Lemma transform_SInv b pend s n m top r :
+  in_text b = false -> SInv b pend s n ->
+  SInv b pend (with_ctms (mat_mul m top :: r) (emit (Tcm m) s)) (nemit (Tcm m) n).
+Proof.
+  intros T []. rewrite T in *.
+  constructor; simpl; rewrite ?T, ?si_text0, ?si_ntext0; simpl; auto; try discriminate; try (rewrite si_g0; reflexivity).
+  all: try (apply (Coh_caches s); try reflexivity; eapply Coh_g; [| | | | |exact si_coh0]; reflexivity).
+Qed.
+
+Lemma push_SInv b pend s n top :
+  in_text b = false -> SInv b pend s n -> SInv (Bq :: b) pend (with_ctms (top :: ctms s) (emit Tq s)) (nemit Tq n).
+Proof.
+  intros T []. rewrite T in *.
+  constructor; simpl; rewrite ?T, ?si_text0, ?si_ntext0; simpl; auto; try discriminate;
+    try (rewrite si_g0, si_stack0; reflexivity); try (apply in_text_false_no_bt; auto).
+Qed.
+
+Lemma istep_Tq_ok X : i_err (istep Tq X) = false -> i_text X = false /\ i_err X = false.
+Proof. simpl. destruct (i_text X); simpl; auto. discriminate. Qed.
+Lemma istep_TET_ok X : i_err (istep TET X) = false -> i_text X = true /\ i_err X = false.
+Proof. simpl. destruct (i_text X); simpl; auto. discriminate. Qed.
+
+Lemma istep_Tq_proj X : i_text X = false -> istep Tq X = imk (i_g X) (i_g X :: i_stack X) false (i_tm X) (i_obs X) (i_err X).
+Proof. intro H. simpl. rewrite H. reflexivity. Qed.
+Lemma istep_TET_proj X : i_text X = true -> istep TET X = imk (i_g X) (i_stack X) false None (i_obs X) (i_err X).
+Proof. intro H. simpl. rewrite H. reflexivity. Qed.
+Lemma istep_TQ_proj I g rest :
+  i_text I = false -> i_stack I = g :: rest -> istep TQ I = imk g rest false (i_tm I) (i_obs I) (i_err I).
+Proof. intros H1 H2. simpl. rewrite H1, H2. reflexivity. Qed.
+Lemma istep_TBT_proj I : i_text I = false -> istep TBT I = imk (i_g I) (i_stack I) true None (i_obs I) (i_err I).
+Proof. intro H. simpl. rewrite H. reflexivity. Qed.
+
+Lemma Coh_reset s0 g : Coh (reset_caches s0) g.
+Proof. unfold Coh; simpl. repeat split; intros; discriminate. Qed.
+
+Lemma pop_SInv b pend s n m r :
+  SInv (Bq :: b) pend s n ->
+  SInv b pend (with_ctms (m :: r) (reset_caches (with_toks (pop_toks (toks s)) s))) (nemit TQ n).
+Proof.
+  intros H. pose proof (okb_in_text_tail _ _ (si_okb _ _ _ _ H)) as TB. pose proof (okb_tail _ _ (si_okb _ _ _ _ H)) as OB.
+  destruct H. cbn [in_text] in si_text0, si_ntext0. cbn [countb bk_eqb] in si_depth0.
+  destruct (pop_toks_cases (toks s)) as [(t & E1 & E2)|[E1 E2]].
+  - (* the empty q Q pair is dropped *)
+    rewrite E1 in *. cbn [interp_rev] in *.
+    destruct (istep_Tq_ok _ si_err0) as [TX EX].
+    rewrite (istep_Tq_proj _ TX) in *. cbn [i_g i_stack i_text i_tm i_obs i_err] in *.
+    assert (NS : istep TQ (interp_rev (ntoks n)) =
+                 imk (i_g (interp_rev t)) (i_stack (interp_rev t)) false (i_tm (interp_rev (ntoks n))) (i_obs (interp_rev (ntoks n))) (i_err (interp_rev (ntoks n)))).
+    { apply istep_TQ_proj; auto. }
+    constructor; cbn [toks ntoks with_ctms reset_caches with_toks nemit interp_rev ofont]; rewrite ?E2, ?NS;
+      cbn [i_g i_stack i_text i_tm i_obs i_err]; auto; try congruence;
+      try (apply (Coh_caches (reset_caches s)); try reflexivity; apply Coh_reset);
+      try (simpl in si_depth0; lia).
+  - destruct (i_stack (interp_rev (toks s))) as [|g1 rest] eqn:ES; [simpl in si_depth0; discriminate|].
+    assert (RS : istep TQ (interp_rev (toks s)) =
+                 imk g1 rest false (i_tm (interp_rev (toks s))) (i_obs (interp_rev (toks s))) (i_err (interp_rev (toks s)))).
+    { apply istep_TQ_proj; auto. }
+    assert (NS : istep TQ (interp_rev (ntoks n)) =
+                 imk g1 rest false (i_tm (interp_rev (ntoks n))) (i_obs (interp_rev (ntoks n))) (i_err (interp_rev (ntoks n)))).
+    { apply istep_TQ_proj; auto. }
+    constructor; cbn [toks ntoks with_ctms reset_caches with_toks nemit interp_rev ofont]; rewrite ?E1; cbn [interp_rev]; rewrite ?RS, ?NS;
+      cbn [i_g i_stack i_text i_tm i_obs i_err under_ET]; auto; try congruence; try discriminate;
+      try (apply (Coh_caches (reset_caches s)); try reflexivity; apply Coh_reset);
+      try (simpl in si_depth0; lia).
+Qed.
+
+Lemma begin_text_SInv b pend s n :
+  in_text b = false -> SInv b pend s n -> SInv (Bt :: b) true (m_begin_text s) (nemit TBT n).
+Proof.
+  intros T H. pose proof (si_okb _ _ _ _ H) as OB.
+  assert (OB' : okb (Bt :: b) = true) by (apply okb_push; auto).
+  pose proof (si_coh _ _ _ _ H) as CH. pose proof CH as (C1 & C2 & C3 & C4 & C5).
+  destruct H. rewrite T in *.
+  assert (NS : istep TBT (interp_rev (ntoks n)) =
+               imk (i_g (interp_rev (ntoks n))) (i_stack (interp_rev (ntoks n))) true None (i_obs (interp_rev (ntoks n))) (i_err (interp_rev (ntoks n)))).
+  { apply istep_TBT_proj; auto. }
+  destruct (bt_toks_cases (toks s)) as [(t & E1 & E2)|[E1 E2]].
+  - (* ET BT merged *)
+    assert (S' : m_begin_text s = with_toks t (with_fonts (ofont s) (ofont s) s)).
+    { unfold m_begin_text. rewrite E1. reflexivity. }
+    rewrite S'. rewrite E1 in *. cbn [interp_rev] in *.
+    destruct (istep_TET_ok _ si_err0) as [TX EX].
+    rewrite (istep_TET_proj _ TX) in *. cbn [i_g i_stack i_text i_tm i_obs i_err] in *.
+    assert (OF : forall f, ofont s = Some f -> g_font (i_g (interp_rev t)) = Some f) by (intros f Hf; apply si_of0; auto).
+    constructor; cbn [toks ntoks with_toks with_fonts nemit interp_rev ofont]; rewrite ?NS;
+      cbn [i_g i_stack i_text i_tm i_obs i_err in_text countb bk_eqb]; auto; try discriminate; try congruence;
+      try (unfold Coh; simpl; repeat split; auto).
+  - assert (S' : m_begin_text s = emit TBT s).
+    { unfold m_begin_text. destruct (toks s) as [|x r]; [reflexivity|]. destruct x; try reflexivity. exfalso. apply (E2 r). reflexivity. }
+    rewrite S'.
+    assert (RS : istep TBT (interp_rev (toks s)) =
+                 imk (i_g (interp_rev (toks s))) (i_stack (interp_rev (toks s))) true None (i_obs (interp_rev (toks s))) (i_err (interp_rev (toks s)))).
+    { apply istep_TBT_proj; auto. }
+    constructor; cbn [toks ntoks emit nemit interp_rev ofont]; rewrite ?RS, ?NS;
+      cbn [i_g i_stack i_text i_tm i_obs i_err in_text countb bk_eqb under_ET]; auto; try discriminate; try congruence;
+      try (apply (Coh_caches s); auto).
+Qed.
+
+Lemma end_text_SInv b pend s n :
+  SInv (Bt :: b) pend s n -> SInv b false (m_end_text s) (nemit TET n).
+Proof.
+  intro H. pose proof (okb_in_text_tail _ _ (si_okb _ _ _ _ H)) as TB. pose proof (okb_tail _ _ (si_okb _ _ _ _ H)) as OB.
+  pose proof (si_coh _ _ _ _ H) as (C1 & C2 & C3 & C4 & C5).
+  destruct H. cbn [in_text] in si_text0, si_ntext0. cbn [countb bk_eqb] in si_depth0.
+  pose proof (istep_TET_proj _ si_text0) as RS. pose proof (istep_TET_proj _ si_ntext0) as NS.
+  unfold m_end_text.
+  constructor; cbn [toks ntoks emit with_fonts nemit interp_rev ofont]; rewrite ?RS, ?NS;
+    cbn [i_g i_stack i_text i_tm i_obs i_err]; auto; try congruence;
+    try (unfold Coh; simpl; repeat split; auto; intros; discriminate).
+Qed.
+
+Lemma SInv_push_m b pend s n : in_text b = false -> SInv b pend s n -> SInv (Bm :: b) pend s n.
+Proof.
+  intros T []. constructor; cbn [in_text countb bk_eqb okb]; auto; try congruence; try (apply in_text_false_no_bt; auto).
+Qed.
+Lemma SInv_pop_m b pend s n : SInv (Bm :: b) pend s n -> SInv b pend s n.
+Proof.
+  intro H. pose proof (okb_in_text_tail _ _ (si_okb _ _ _ _ H)) as TB. pose proof (okb_tail _ _ (si_okb _ _ _ _ H)) as OB.
+  destruct H. cbn [in_text countb bk_eqb] in *. constructor; auto; congruence.
+Qed.
+
+Lemma mc_tokens_SInv b pend s n s' n' lr ln :
+  SInv b pend s n -> toks s' = lr ++ toks s -> ntoks n' = ln ++ ntoks n ->
+  forallb (fun t => match t with Ttag | Tprops _ | TBMC | TBDC | TEMC => true | _ => false end) lr = true ->
+  forallb (fun t => match t with Ttag | Tprops _ | TBMC | TBDC | TEMC => true | _ => false end) ln = true ->
+  ccol s' = ccol s -> ccols s' = ccols s -> calpha s' = calpha s -> calphas s' = calphas s -> cfont s' = cfont s ->
+  ofont s' = ofont s -> SInv b pend s' n'.
+Proof.
+  intros H T N Lr Ln K1 K2 K3 K4 K5 K6.
+  assert (G : forall l, forallb (fun t => match t with Ttag | Tprops _ | TBMC | TBDC | TEMC => true | _ => false end) l = true ->
+              exists F, gfuns l = Some F /\ forall g, F g = g).
+  { induction l as [|t l IH]; simpl; intro A.
+    - eexists; split; [reflexivity|]; auto.
+    - apply andb_true_iff in A. destruct A as [A1 A2]. destruct (IH A2) as (F & E & EF). rewrite E.
+      destruct t; try discriminate; simpl; eexists; (split; [reflexivity|]); intro g; apply EF. }
+  destruct (G lr Lr) as (Fr & Er & EFr). destruct (G ln Ln) as (Fn & En & EFn).
+  eapply (setter_SInv b pend s n s' n' lr ln Fr Fn); eauto.
+  - rewrite EFr, EFn. reflexivity.
+  - rewrite EFr. eapply Coh_caches; eauto. exact (si_coh _ _ _ _ H).
+Qed.
+
+(* --------------------------------------------------------------------------------------- one call *)
+Definition tmstep (pend : bool) (o : op) : option bool :=
+  match o with
+  | BeginText => Some true
+  | EndText | TextMatrix _ => Some false
+  | Tok _ => if pend then None else Some false
+  | _ => Some pend
+  end.
+Lemma tm_disciplined_cons pend o r :
+  tm_disciplined pend (o :: r) = true -> exists p', tmstep pend o = Some p' /\ tm_disciplined p' r = true.
+Proof.
+  destruct o; simpl; intro H; eauto.
+  destruct pend; simpl in H; [discriminate|]. eauto.
+Qed.
+
+Lemma step_SInv o b b' pend pend' s s' n :
+  SInv b pend s n -> wstep o b = Some b' -> tmstep pend o = Some pend' -> op_guard s o = true ->
+  mstep o s = Some s' -> SInv b' pend' s' (nstep o n).
+Proof.
+  intros H W TM G M. destruct o; simpl in W, TM, G, M; cbn [nstep].
+  - (* Push *)
+    destruct (in_text b) eqn:T; [discriminate|]. inversion W; subst; clear W. inversion TM; subst.
+    unfold m_push in M. destruct (ctms s) as [|top r] eqn:C; [discriminate|]. inversion M; subst.
+    rewrite <- C. apply push_SInv; auto.
+  - (* Pop *)
+    destruct b as [|[] r]; try discriminate. inversion W; subst; clear W. inversion TM; subst.
+    rewrite m_pop_spec in M. destruct (ctms s) as [|m0 [|m1 rest]]; try discriminate. inversion M; subst.
+    apply pop_SInv. exact H.
+  - (* BeginText *)
+    destruct (in_text b) eqn:T; [discriminate|]. inversion W; subst. inversion TM; subst. inversion M; subst.
+    apply (begin_text_SInv b pend); auto.
+  - (* EndText *)
+    destruct b as [|[] r]; try discriminate. inversion W; subst. inversion TM; subst. inversion M; subst.
+    eapply end_text_SInv; eauto.
+  - (* SetColor *)
+    inversion W; subst. inversion TM; subst. inversion M; subst. apply set_color_SInv. exact H.
+  - (* SetAlpha *)
+    inversion W; subst. inversion TM; subst. inversion M; subst. apply set_alpha_SInv. exact H.
+  - (* SetFont *)
+    inversion W; subst. inversion TM; subst. inversion M; subst. apply set_font_SInv. exact H.
+  - (* SetState: guarded *)
+    inversion W; subst. inversion TM; subst. inversion M; subst. clear W TM M.
+    apply andb_true_iff in G. destruct G as [G1 G2].
+    pose proof (si_coh _ _ _ _ H) as (C1 & C2 & C3 & C4 & C5).
+    eapply (setter_SInv b' pend' s n _ _ [Tgs _ (ca, CA)] [Tgs _ (ca, CA)]); eauto; try reflexivity.
+    unfold Coh, m_set_state; simpl. repeat split; auto.
+    + intros k Hk. destruct (C3 k Hk) as (a & i & K & GA). exists a, i. split; auto.
+      rewrite Hk in G1. simpl in G1. rewrite orb_false_r in G1. destruct ca; [discriminate|]. exact GA.
+    + intros k Hk. destruct (C4 k Hk) as (a & i & K & GA). exists a, i. split; auto.
+      rewrite Hk in G2. simpl in G2. rewrite orb_false_r in G2. destruct CA; [discriminate|]. exact GA.
+  - (* PatternColor: guarded *)
+    inversion W; subst. inversion TM; subst. inversion M; subst. clear W TM M.
+    pose proof (si_coh _ _ _ _ H) as (C1 & C2 & C3 & C4 & C5).
+    eapply (setter_SInv b' pend' s n _ _ [Tpat stroke p; Tcs stroke PATTERN_SPACE] [Tpat stroke p; Tcs stroke PATTERN_SPACE]);
+      eauto; try reflexivity.
+    unfold Coh; simpl. destruct stroke; simpl.
+    + destruct (ccols s); [discriminate|]. destruct (i_g (interp_rev (toks s))); simpl in *.
+      repeat split; auto. intros; discriminate.
+    + destruct (ccol s); [discriminate|]. destruct (i_g (interp_rev (toks s))); simpl in *.
+      repeat split; auto. intros; discriminate.
+  - (* Transform *)
+    destruct (in_text b) eqn:T; [discriminate|]. inversion W; subst. inversion TM; subst.
+    unfold m_transform in M. destruct (ctms s) as [|top r]; [discriminate|]. inversion M; subst.
+    apply transform_SInv; auto.
+  - (* TextMatrix *)
+    destruct (in_text b) eqn:T; [|discriminate]. inversion W; subst. inversion TM; subst. inversion M; subst.
+    eapply tm_SInv; eauto.
+  - (* BeginMC *)
+    destruct (in_text b) eqn:T; [discriminate|]. inversion W; subst. inversion TM; subst. inversion M; subst. clear W TM M.
+    apply SInv_push_m; auto.
+    unfold m_begin_mc. destruct (markon s), (nmarkon n), mcid;
+      try (eapply (mc_tokens_SInv b pend' s n _ _ [TBDC; Tprops _; Ttag] [TBDC; Tprops _; Ttag]); eauto; reflexivity);
+      try (eapply (mc_tokens_SInv b pend' s n _ _ [TBDC; Tprops _; Ttag] []); eauto; reflexivity);
+      try (eapply (mc_tokens_SInv b pend' s n _ _ [] [TBDC; Tprops _; Ttag]); eauto; reflexivity);
+      try (eapply (mc_tokens_SInv b pend' s n _ _ [TBMC; Ttag] [TBMC; Ttag]); eauto; reflexivity);
+      try (eapply (mc_tokens_SInv b pend' s n _ _ [TBMC; Ttag] []); eauto; reflexivity);
+      try (eapply (mc_tokens_SInv b pend' s n _ _ [] [TBMC; Ttag]); eauto; reflexivity);
+      try (eapply (mc_tokens_SInv b pend' s n _ _ [] []); eauto; reflexivity).
+  - (* EndMC *)
+    destruct b as [|[] r]; try discriminate. inversion W; subst. inversion TM; subst. inversion M; subst. clear W TM M.
+    apply SInv_pop_m in H.
+    unfold m_end_mc. destruct (markon s), (nmarkon n);
+      try (eapply (mc_tokens_SInv b' pend' s n _ _ [TEMC] [TEMC]); eauto; reflexivity);
+      try (eapply (mc_tokens_SInv b' pend' s n _ _ [TEMC] []); eauto; reflexivity);
+      try (eapply (mc_tokens_SInv b' pend' s n _ _ [] [TEMC]); eauto; reflexivity);
+      try (eapply (mc_tokens_SInv b' pend' s n _ _ [] []); eauto; reflexivity).
+  - (* Tok *)
+    inversion W; subst. inversion M; subst. destruct pend; [discriminate|]. inversion TM; subst.
+    apply tok_SInv. exact H.
+Qed.
+
+Lemma run_SInv ops : forall b b' pend s s' n,
+  SInv b pend s n -> wscan b ops = Some b' -> tm_disciplined pend ops = true -> guarded ops s = true ->
+  run ops s = Some s' -> exists pend', SInv b' pend' s' (nrun ops n).
+Proof.
+  induction ops as [|o r IH]; intros b b' pend s s' n H W TM G R.
+  - simpl in *. inversion W; inversion R; subst. eauto.
+  - simpl in W, G, R. destruct (wstep o b) as [b1|] eqn:E; [|discriminate].
+    destruct (tm_disciplined_cons _ _ _ TM) as (p1 & TM1 & TMr).
+    apply andb_true_iff in G. destruct G as [G1 G2].
+    destruct (mstep o s) as [s1|] eqn:M; [|discriminate].
+    unfold nrun. simpl. apply (IH b1 b' p1 s1 s' (nstep o n)); auto.
+    eapply step_SInv; eauto.
+Qed.
+
+Lemma SInv_fresh mark d : SInv [] false (fresh mark d) (nfresh mark d).
+Proof.
+  constructor; simpl; auto; try discriminate.
+  unfold Coh; simpl. repeat split; intros; discriminate.
+Qed.
+
+Lemma interp_rev_fwd l : interp (rev l) = interp_rev l.
+Proof.
+  unfold interp. induction l as [|t l IH]; simpl; auto.
+  rewrite fold_left_app. simpl. rewrite IH. reflexivity.
+Qed.
+
+(* ------------------------------------------------------------------------------------- main theorem *)
+Theorem skip_is_sound mark d ops s' :
+  wb ops = true -> tm_disciplined false ops = true -> guarded ops (fresh mark d) = true ->
+  run ops (fresh mark d) = Some s' ->
+  let X := interp (rev (toks s')) in
+  let Y := interp (rev (ntoks (nrun ops (nfresh mark d)))) in
+  i_err X = false /\ i_err Y = false /\ i_obs X = i_obs Y /\ i_g X = i_g Y /\ i_stack X = i_stack Y /\
+  i_text X = false /\ i_text Y = false.
+Proof.
+  unfold wb. destruct (wscan [] ops) as [[|x r]|] eqn:W; try discriminate. intros _ TM G R.
+  destruct (run_SInv ops [] [] false (fresh mark d) s' (nfresh mark d) (SInv_fresh mark d) W TM G R) as (p & []).
+  simpl. rewrite !interp_rev_fwd. repeat split; auto.
+Qed.
+
+(* calls that never go behind the caches are guarded *)
+Lemma raw_free_guarded ops : forall s, forallb raw_free ops = true -> guarded ops s = true.
+Proof.
+  induction ops as [|o r IH]; simpl; intros s H; auto.
+  apply andb_true_iff in H. destruct H as [H1 H2].
+  apply andb_true_iff. split.
+  - destruct o; simpl; auto. destruct ca, CA; simpl in H1; try discriminate. reflexivity. discriminate.
+  - destruct (mstep o s); auto.
+Qed.
+
+Corollary skip_is_sound_raw_free mark d ops s' :
+  wb ops = true -> tm_disciplined false ops = true -> forallb raw_free ops = true ->
+  run ops (fresh mark d) = Some s' ->
+  let X := interp (rev (toks s')) in
+  let Y := interp (rev (ntoks (nrun ops (nfresh mark d)))) in
+  i_err X = false /\ i_err Y = false /\ i_obs X = i_obs Y /\ i_g X = i_g Y /\ i_stack X = i_stack Y /\
+  i_text X = false /\ i_text Y = false.
+Proof. intros. apply skip_is_sound; auto. apply raw_free_guarded; auto. Qed.
+
+(* boolean form, as evaluated by the correspondence judge *)
+Lemma mat_eqb_refl m : mat_eqb m m = true.
+Proof. destruct m as [[[[[a b] c] d] e] f]. simpl. rewrite !Z.eqb_refl. reflexivity. Qed.
+Lemma pcol_eqb_refl p : pcol_eqb p p = true.
+Proof. destruct p; simpl; auto; try apply Z.eqb_refl. unfold color_eqb. rewrite !Z.eqb_refl. reflexivity. Qed.
+Lemma gst_eqb_refl g : gst_eqb g g = true.
+Proof.
+  destruct g as [f1 f2 a1 a2 fo m]. unfold gst_eqb. simpl. rewrite !pcol_eqb_refl, !Z.eqb_refl, mat_eqb_refl.
+  destruct fo; simpl; auto. unfold font_eqb. rewrite !Z.eqb_refl. reflexivity.
+Qed.
+Lemma list_eqb_refl {A} (eqb : A -> A -> bool) : (forall a, eqb a a = true) -> forall l, list_eqb eqb l l = true.
+Proof. intros R l. induction l; simpl; auto. rewrite R, IHl. reflexivity. Qed.
+Lemma obs_eqb_refl o : obs_eqb o o = true.
+Proof.
+  destruct o as [[[k g] t] m]. simpl. rewrite Z.eqb_refl, gst_eqb_refl, Bool.eqb_reflx.
+  destruct m; simpl; auto. apply mat_eqb_refl.
+Qed.
+
+Corollary skip_is_sound_b mark d ops s' :
+  wb ops = true -> tm_disciplined false ops = true -> guarded ops (fresh mark d) = true ->
+  run ops (fresh mark d) = Some s' ->
+  same_rendering (interp (rev (toks s'))) (interp (rev (ntoks (nrun ops (nfresh mark d))))) = true.
+Proof.
+  intros W TM G R. destruct (skip_is_sound mark d ops s' W TM G R) as (A & B & C & D & E & F & F').
+  unfold same_rendering. rewrite A, B, C, D, E, F, F'. simpl.
+  rewrite (list_eqb_refl obs_eqb obs_eqb_refl), gst_eqb_refl, (list_eqb_refl gst_eqb gst_eqb_refl). reflexivity.
+Qed.
+
+(* ------------------------------------------------------------------------- refutations (finding F12) *)
+(* an ExtGState carrying /ca (what set_alpha_state installs: 'ca': 1) goes behind the alpha cache: the next
+   set_alpha with the cached value is skipped although the graphics state no longer has that value *)
+Definition f12_alpha_witness : list op :=
+  [SetAlpha 500 false false None; Push; SetState (Some 1000) None; SetAlpha 500 false false None; Tok 0; Tok 1; Pop].
+
+Theorem skip_unsound_after_raw_gs :
+  exists ops s',
+    wb ops = true /\ tm_disciplined false ops = true /\ run ops (fresh false []) = Some s' /\
+    guarded ops (fresh false []) = false /\
+    same_rendering (interp (rev (toks s'))) (interp (rev (ntoks (nrun ops (nfresh false []))))) = false /\
+    (* the fill is painted with alpha 1 by the emitted tokens, 0.5 by the un-optimised ones *)
+    map (fun o => g_ca (snd (fst (fst o)))) (i_obs (interp (rev (toks s')))) = [1000; 1000] /\
+    map (fun o => g_ca (snd (fst (fst o)))) (i_obs (interp (rev (ntoks (nrun ops (nfresh false [])))))) = [500; 500].
+Proof.
+  exists f12_alpha_witness. eexists. repeat split; try reflexivity.
+Qed.
+
+(* same for the Pattern colour space installed by set_color_space/set_color_special *)
+Definition f12_pattern_witness : list op :=
+  [SetColor false (0, 0) 1000 false; Push; PatternColor false 0; Tok 0; Tok 1; Push; SetColor false (0, 0) 1000 false; Tok 0; Tok 1; Pop; Pop].
+
+Theorem skip_unsound_after_pattern_colour :
+  exists ops s',
+    wb ops = true /\ tm_disciplined false ops = true /\ run ops (fresh false []) = Some s' /\
+    guarded ops (fresh false []) = false /\
+    same_rendering (interp (rev (toks s'))) (interp (rev (ntoks (nrun ops (nfresh false []))))) = false /\
+    map (fun o => g_fill (snd (fst (fst o)))) (i_obs (interp (rev (toks s')))) = [PPat 0; PPat 0; PPat 0; PPat 0] /\
+    map (fun o => g_fill (snd (fst (fst o)))) (i_obs (interp (rev (ntoks (nrun ops (nfresh false [])))))) =
+      [PCol (0, 0); PCol (0, 0); PPat 0; PPat 0].
+Proof.
+  exists f12_pattern_witness. eexists. repeat split; try reflexivity.
+Qed.
+
+Example skip_is_sound_example :
+  let ops := [Push; SetColor false (0,0) 500 false; Tok 0; Tok 1; Push; SetColor false (0,0) 500 false; SetColor true (7, 8) 1000 false;
+              BeginText; TextMatrix mat_id; SetFont (0,0); Tok 8; EndText; Push; Pop;
+              BeginText; TextMatrix (1,0,0,1,5,5); SetFont (0,0); Tok 8; EndText; Pop; SetColor false (0,0) 500 false; Tok 1; Pop] in
+  wb ops = true /\ tm_disciplined false ops = true /\ forallb raw_free ops = true /\
+  option_map (fun s => length (toks s)) (run ops (fresh false [])) = Some 22%nat /\
+  length (ntoks (nrun ops (nfresh false []))) = 32%nat.
+Proof. repeat split; reflexivity. Qed.
